@@ -15,6 +15,10 @@ from lib.core import Ctx
 from lib import repo  # noqa: F401
 
 
+_ENGINES = {}     # one AlignerEngine per maxDistance for all cases: the pipeline keeps one engine per process
+_CASE = [0]
+
+
 def run_real(case, den=1):
     from src.alignment.aligner import AlignerEngine
     from src.alignment.alignment_position import AlignedPair, NotAlignedReferencePosition, NotAlignedQueryPosition
@@ -23,10 +27,11 @@ def run_real(case, den=1):
     def f(x):
         return x / den if den != 1 else x
 
-    ref = OpticalMap(1, f(max(case["ref"] + [0]) + 1), [f(x) for x in case["ref"]])
-    qry = OpticalMap(7, f(case["qlen"] - 1) + 1, [f(x) for x in case["qry"]], shift=case["shift"])
+    _CASE[0] += 1      # every case has its own map ids (ids identify maps within a run)
+    ref = OpticalMap(4 + 2 * _CASE[0], f(max(case["ref"] + [0]) + 1), [f(x) for x in case["ref"]])
+    qry = OpticalMap(5 + 2 * _CASE[0], f(case["qlen"] - 1) + 1, [f(x) for x in case["qry"]], shift=case["shift"])
     # length is used only as (length - 1) - x on the reverse strand: keep (qlen-1)/den exact
-    eng = AlignerEngine(f(case["maxD"]))
+    eng = _ENGINES.setdefault(f(case["maxD"]), AlignerEngine(f(case["maxD"])))
     res = eng.align(ref, qry, f(case["start"]), f(case["end"]), case["rev"])
     obs = []
 
